@@ -198,6 +198,7 @@ func runC14Split(c *Ctx) {
 	explore := func(cs splitCase) []splitEffect {
 		var results []splitEffect
 		var walk func(b, from *ssa.BasicBlock, st pathState, depth int)
+		var evalCondRec func(v ssa.Value, st *pathState) (val, known bool)
 		evalCond := func(v ssa.Value, st *pathState) (val, known bool) {
 			neg := false
 			for {
@@ -212,6 +213,22 @@ func runC14Split(c *Ctx) {
 			case *ssa.Phi:
 				if x == phiP {
 					return res(cs.P)
+				}
+				// value of a short-circuit expression (a && b, a || b) materialised as a phi: take the
+				// edge this path arrived through
+				if prd, ok := st.preds[x.Block()]; ok {
+					for i, pr := range x.Block().Preds {
+						if pr == prd {
+							if cst, isC := x.Edges[i].(*ssa.Const); isC && cst.Value != nil {
+								return res(cst.Value.String() == "true")
+							}
+							v2, k2 := evalCondRec(x.Edges[i], st)
+							if k2 {
+								return res(v2)
+							}
+							return false, false
+						}
+					}
 				}
 			case *ssa.BinOp:
 				if x.Op == token.EQL || x.Op == token.NEQ {
@@ -254,6 +271,7 @@ func runC14Split(c *Ctx) {
 			}
 			return false, false
 		}
+		evalCondRec = evalCond
 		walk = func(b, from *ssa.BasicBlock, st pathState, depth int) {
 			if depth > 64 {
 				undecided = append(undecided, "path too long")
@@ -357,7 +375,7 @@ func runC14Split(c *Ctx) {
 			case *ssa.If:
 				val, known := evalCond(t.Cond, &st)
 				if !known {
-					undecided = append(undecided, fmt.Sprintf("condition at %s not decided by (inside-quotes, byte class, stack invariant)", p.Pos(t.Pos())))
+					undecided = append(undecided, fmt.Sprintf("condition %T %s in block %d not decided by (inside-quotes, byte class, stack invariant)", t.Cond, t.Cond.String(), b.Index))
 					return
 				}
 				if val {
